@@ -64,6 +64,11 @@ func (g *Gen) call(in ssa.Instruction, c *ssa.CallCommon, rt types.Type) Val {
 	if g.fc != nil {
 		name := g.calleeName(c)
 		site := fmt.Sprintf("%s#%d", name, g.callCount[name])
+		for _, gh := range g.fc.Ghosts {
+			if siteMatches(site, gh.Site) {
+				g.pendingGhosts = append(g.pendingGhosts, gh)
+			}
+		}
 		for _, a := range g.fc.Asserts {
 			if siteMatches(site, a.Site) {
 				g.pendingAsserts = append(g.pendingAsserts, a)
@@ -79,13 +84,27 @@ func (g *Gen) call(in ssa.Instruction, c *ssa.CallCommon, rt types.Type) Val {
 
 // siteMatches: a call site written in a contract may omit the package qualifier of the callee.
 func siteMatches(full, spec string) bool {
-	if full == spec || strings.HasSuffix(full, "."+spec) || strings.HasSuffix(full, "/"+spec) {
+	if full == spec {
 		return true
 	}
-	return pkgQual.ReplaceAllString(full, "$1") == pkgQual.ReplaceAllString(spec, "$1")
+	// import paths are reduced to their last element: internal/convert.BytesToString -> convert.BytesToString
+	a := lastPkgElem(full)
+	if a == spec {
+		return true
+	}
+	// functions and methods of the package under verification may be written without qualifier
+	if curPkgName != "" {
+		if strings.ReplaceAll(a, curPkgName+".", "") == spec {
+			return true
+		}
+	}
+	return false
 }
 
-var pkgQual = regexp.MustCompile(`(^|[(*])[A-Za-z0-9_/\-]+\.`)
+// curPkgName: name of the package whose function is being verified (set per unit; verification is sequential).
+var curPkgName string
+
+var _ = regexp.MustCompile
 
 func (g *Gen) callInner(in ssa.Instruction, c *ssa.CallCommon, rt types.Type) Val {
 	name := g.calleeName(c)
@@ -783,8 +802,10 @@ func (g *Gen) applyContract(fc *FuncContract, pc *PkgContracts, pkg *types.Packa
 	}
 	post := &Env{vars: env.vars, heap: g.heap, old: pre, pkg: pkg, pc: pc, results: results}
 	for _, c := range fc.Ensures {
-		if c.Local {
-			continue // proved for the callee, deliberately not exported to callers (keeps their context small)
+		if c.Local || c.Ret != 0 {
+			// proved for the callee, not exported to callers: @local clauses (keeps the caller's context small) and
+			// clauses tied to one return statement (they may mention the callee's ghost names)
+			continue
 		}
 		g.assume(g.curReach, g.evalBool(c.Expr, post))
 	}
